@@ -296,6 +296,153 @@ def gen_C10(tier, seed, unit, nunits):
                 out.append(req('from_le_bytes', s, n, f, b)); out.append(req('from_be_bytes', s, n, f, b))
     return {'codec': out}
 
+CV_FORMS = ['to_num', 'checked', 'saturating', 'wrapping', 'overflowing', 'from_num', 'checked_from', 'saturating_from', 'wrapping_from', 'overflowing_from']
+CMP_OPS = ['eq', 'ne', 'lt', 'le', 'gt', 'ge', 'pcmp']
+
+def helper_reqs(rng, tier, out, s, n):
+    """to_fixed_helper on a primitive: source frac incl. negative / large (float mantissas), destinations incl. the boundary set"""
+    E = G.edges(s, n, 0)
+    for _ in range(scale(tier, 1500, 60000)):
+        x = G.rand_val(rng, s, n, 0, E)
+        sf = rng.choice([rng.randint(0, n), rng.randint(0, n), rng.randint(-200, 200), rng.randint(-1100, 1200), 0, n])
+        dn = rng.choice(G.WIDTHS)
+        df = rng.randint(0, dn)
+        if rng.random() < 0.4:
+            df = min(max(sf - rng.choice([0, 1, -1, n - 1, -(n - 1), n, -n, 127, -127, 128, -128, 129, -129]), 0), dn)
+        out.append(req('h_to_fixed_helper', s, n, 0, x, sf, df, dn - df))
+
+def gen_C04(tier, seed, unit, nunits):
+    out = G.corpus('C04') if unit == 0 else []
+    for (s, n) in unit_layouts(G.FAMILIES, unit, nunits):
+        rng = random.Random(f'{seed}/C04/h/{s}/{n}')
+        helper_reqs(rng, tier, out, s, n)
+    P = G.pair_layouts()
+    pairs = [(a, b) for a in P for b in P]
+    for (A, B) in unit_layouts(pairs, unit, nunits):
+        (s1, n1, f1), (s2, n2, f2) = A, B
+        rng = random.Random(f'{seed}/C04/p/{A}/{B}')
+        E1 = G.edges(s1, n1, f1)
+        vals = set(G.crit(s1, n1, f1))
+        for _ in range(scale(tier, 12, 250)):
+            # a source value whose image is near the destination's range ends or on/off its grid
+            b, a = G.related(rng, s2, n2, f2, s1, n1, f1, G.edges(s2, n2, f2))
+            vals.add(a)
+            vals.add(G.rand_val(rng, s1, n1, f1, E1))
+        for x in sorted(vals):
+            for fm in (CV_FORMS if tier != 'quick' else rng.sample(CV_FORMS, 4)):
+                out.append(req('cv_' + fm, s1, n1, f1, x, s2, n2, f2))
+    for (s, n, f) in unit_layouts(G.small_layouts(), unit, nunits):
+        rng = random.Random(f'{seed}/C04/i/{s}/{n}/{f}')
+        E = G.edges(s, n, f)
+        for ty, (si, ni) in G.INT_TYPES.items():
+            Ei = G.edges(si, ni, 0)
+            for _ in range(scale(tier, 25, 500)):
+                k, x = G.related(rng, si, ni, 0, s, n, f, Ei)
+                x2, k2 = G.related(rng, s, n, f, si, ni, 0, E)
+                for fm in ('to_num', 'checked', 'saturating', 'wrapping', 'overflowing'):
+                    out.append(req('icv_' + fm, s, n, f, x, ty))
+                    out.append(req('icv_' + fm, s, n, f, x2, ty))
+                for fm in ('from_num', 'checked_from', 'saturating_from', 'wrapping_from', 'overflowing_from'):
+                    out.append(req('icv_' + fm, s, n, f, 0, ty, k))
+                    out.append(req('icv_' + fm, s, n, f, 0, ty, k2))
+        for fm in ('from_num', 'checked_from', 'saturating_from', 'wrapping_from', 'overflowing_from'):
+            for bv in (0, 1):
+                out.append(req('icv_' + fm, s, n, f, 0, 'bool', bv))
+    return {'conv': out}
+
+def gen_C03(tier, seed, unit, nunits):
+    out = G.corpus('C03') if unit == 0 else []
+    P = G.pair_layouts()
+    pairs = [(a, b) for a in P for b in P]
+    for (A, B) in unit_layouts(pairs, unit, nunits):
+        (s1, n1, f1), (s2, n2, f2) = A, B
+        rng = random.Random(f'{seed}/C03/p/{A}/{B}')
+        E1 = G.edges(s1, n1, f1)
+        cases = [(a, b) for a in G.crit(s1, n1, f1)[:6] for b in G.crit(s2, n2, f2)[:6]]
+        for _ in range(scale(tier, 20, 400)):
+            cases.append(G.related(rng, s1, n1, f1, s2, n2, f2, E1))
+        for a, b in cases:
+            for op in (CMP_OPS if tier != 'quick' else rng.sample(CMP_OPS, 3)):
+                out.append(req('cmp_' + op, s1, n1, f1, a, s2, n2, f2, b))
+    for (s, n, f) in unit_layouts(G.small_layouts(), unit, nunits):
+        rng = random.Random(f'{seed}/C03/i/{s}/{n}/{f}')
+        E = G.edges(s, n, f)
+        for ty, (si, ni) in G.INT_TYPES.items():
+            for _ in range(scale(tier, 30, 600)):
+                a, k = G.related(rng, s, n, f, si, ni, 0, E)
+                op = rng.choice(CMP_OPS)
+                out.append(req('icmp_' + op, s, n, f, a, ty, k))
+                out.append(req('icmpr_' + rng.choice(CMP_OPS), s, n, f, a, ty, k))
+    for (s, n, f) in unit_layouts(G.typed_layouts(tier), unit, nunits):
+        rng = random.Random(f'{seed}/C03/f/{s}/{n}/{f}')
+        E = G.edges(s, n, f)
+        for fmt in ('f32', 'f64'):
+            fl = G.float_specials(fmt) + G.layout_floats(rng, fmt, s, n, f, scale(tier, 60, 1500)) + [G.rand_float(rng, fmt) for _ in range(scale(tier, 30, 600))]
+            for b in fl:
+                # fixed operand: the float's neighbourhood on the grid, or anything
+                a = G.rand_val(rng, s, n, f, E)
+                if rng.random() < 0.7:
+                    try:
+                        import struct as _st
+                        v = _st.unpack('<f', _st.pack('<I', b))[0] if fmt == 'f32' else _st.unpack('<d', _st.pack('<Q', b))[0]
+                        if v == v and abs(v) != float('inf'):
+                            from fractions import Fraction as Fr
+                            a = G.clip(s, n, int(Fr(v) * (1 << f)) + rng.randint(-2, 2))
+                    except Exception:
+                        pass
+                out.append(req('fcmp_' + rng.choice(CMP_OPS), s, n, f, a, fmt, b))
+                out.append(req('fcmpr_' + rng.choice(CMP_OPS), s, n, f, a, fmt, b))
+                if rng.random() < 0.3:
+                    out.append(req('fcmp_pcmp', s, n, f, a, fmt, b))
+        for _ in range(scale(tier, 40, 800)):
+            a = G.rand_val(rng, s, n, f, E); b = rng.choice([a, a, G.rand_val(rng, s, n, f, E), G.clip(s, n, a + rng.randint(-1, 1))])
+            for op in ('same_cmp', 'same_eq', 'same_hash_eq'):
+                out.append(req(op, s, n, f, a, b))
+    return {'conv': out}
+
+def gen_C05(tier, seed, unit, nunits):
+    out = G.corpus('C05') if unit == 0 else []
+    for (s, n, f) in unit_layouts(G.all_layouts(), unit, nunits):
+        rng = random.Random(f'{seed}/C05/h/{s}/{n}/{f}')
+        E = G.edges(s, n, f)
+        for fmt, (nb, prec) in G.FLOATS.items():
+            fl = G.float_specials(fmt) + G.layout_floats(rng, fmt, s, n, f, scale(tier, 25, 600)) + [G.rand_float(rng, fmt) for _ in range(scale(tier, 10, 300))]
+            for b in fl:
+                out.append(req('h_to_float_kind', 0, nb, 0, b, f, n - f))
+            if s == 0:
+                mags = {0, 1, 2, 3, (1 << n) - 1, (1 << n) - 2, 1 << (n - 1), (1 << (n - 1)) - 1}
+                for _ in range(scale(tier, 30, 800)):
+                    k = rng.randint(0, n)
+                    m = rng.getrandbits(k) if k else 0
+                    # rounding-boundary magnitudes: prec significant bits followed by 100..0 / 011..1 / 100..01
+                    if rng.random() < 0.5 and k > prec + 1:
+                        top = (m >> (k - prec)) << (k - prec)
+                        m = top | rng.choice([1 << (k - prec - 1), (1 << (k - prec - 1)) - 1, (1 << (k - prec - 1)) + 1, 0])
+                    mags.add(m)
+                for m in sorted(mags):
+                    out.append(req('h_from_to_float', 0, nb, 0, rng.getrandbits(1), m, f, n - f))
+    for (s, n, f) in unit_layouts(G.typed_layouts(tier), unit, nunits):
+        rng = random.Random(f'{seed}/C05/t/{s}/{n}/{f}')
+        E = G.edges(s, n, f)
+        for fmt, (nb, prec) in G.FLOATS.items():
+            fl = G.float_specials(fmt) + G.layout_floats(rng, fmt, s, n, f, scale(tier, 40, 1000)) + [G.rand_float(rng, fmt) for _ in range(scale(tier, 15, 400))]
+            for b in fl:
+                for fm in ('from_num', 'checked_from', 'saturating_from', 'wrapping_from', 'overflowing_from'):
+                    out.append(req('fcv_' + fm, s, n, f, 0, fmt, b))
+            vals = set(E)
+            for _ in range(scale(tier, 40, 1000)):
+                k = rng.randint(0, n)
+                m = rng.getrandbits(k) if k else 0
+                if rng.random() < 0.5 and k > prec + 1:
+                    top = (m >> (k - prec)) << (k - prec)
+                    m = top | rng.choice([1 << (k - prec - 1), (1 << (k - prec - 1)) - 1, (1 << (k - prec - 1)) + 1, 0])
+                vals.add(G.clip(s, n, m if not s or rng.random() < 0.5 else -m))
+            for x in sorted(vals):
+                out.append(req('fcv_to', s, n, f, x, fmt))
+            for x in list(sorted(vals))[:5]:
+                out.append(req('fcv_to_checked', s, n, f, x, fmt)); out.append(req('fcv_to_overflowing', s, n, f, x, fmt))
+    return {'conv': out}
+
 PROPS = {
     'C01': dict(lean_modules=['SfxProps.C01'], bins=['arith'], profiles=['chk', 'rel'], gen=gen_C01, thorough_all_fracs=True),
     'C06': dict(lean_modules=['SfxProps.C06'], bins=['arith'], profiles=['chk', 'rel'], gen=gen_C06, thorough_all_fracs=True),
@@ -307,5 +454,8 @@ PROPS = {
                 rule='bit patterns (8-bit exhaustive), their encodings, short/long/random byte strings; de-duplicated per unit; '
                      'non-trivial = operand magnitude > 1 or a byte-string argument',
                 assumptions=['serde form {bits}: not exercised (no serde_json in the offline registry); little-endian target for *_ne_bytes']),
+    'C03': dict(lean_modules=['SfxProps.C03'], bins=['conv'], profiles=['rel'], gen=gen_C03),
+    'C04': dict(lean_modules=['SfxProps.C04'], bins=['conv'], profiles=['chk', 'rel'], gen=gen_C04),
+    'C05': dict(lean_modules=['SfxProps.C05'], bins=['conv'], profiles=['chk', 'rel'], gen=gen_C05),
     'C02': dict(lean_modules=['SfxProps.C02'], bins=['arith'], profiles=['chk', 'rel'], gen=gen_C02, thorough_all_fracs=True),
 }
